@@ -8,6 +8,8 @@ import CprocVerif.Lemmas.Lower2Func
 import CprocVerif.Lemmas.Lower2Call
 import CprocVerif.Lemmas.Lower2Arr
 import CprocVerif.Lemmas.Lower2Leaf3
+import CprocVerif.Lemmas.Lower2CallP
+import CprocVerif.Lemmas.Lower2Ptr
 
 set_option linter.unusedSimpArgs false
 
@@ -21,18 +23,22 @@ def AllStmt (fuel : Nat) : Prop := ∀ T : Stat, (T.P = [] ∨ fuel ≤ T.d) →
 
 theorem wt_arrsOK {g : CSem2.Func} (h : CSem2.WT g) : arrsOK g.cnts g.body = true := by
   simp only [CSem2.WT, CSem2.Func.wt, Bool.and_eq_true] at h
-  exact h.1.1.2
+  exact h.1.1.1.1.1.1.1.2
+
+theorem wt_ptrsOK {g : CSem2.Func} (h : CSem2.WT g) : ptrsOK g.pwin g.wbase g.body = true := by
+  simp only [CSem2.WT, CSem2.Func.wt, Bool.and_eq_true] at h
+  exact h.1.1.1.1.2
 
 /-- the activations of the functions of the program, from the simulation of their statements -/
 theorem funcSim_of_all (T : Stat) (n : Nat) (hd : 0 < T.d) (hn : n + 1 ≤ T.d) (hall : AllStmt n) :
     FuncSim T n := by
-  intro fn g sid ρ v M rest tr env0 hlk henv hmem hroom htop hargs hex
+  intro fn g sid ρ ws v M rest tr env0 hlk henv hmem hroom htop hargs hwin hex
   obtain ⟨hwt, hcalls, hK⟩ := T.hP fn g hlk
   have hroom' : Room T.K (T.d - 1 + 1) M := by
     have : T.d - 1 + 1 = T.d := by omega
     rw [this]; exact hroom
-  exact sim_func T.S.cs sid g ρ v hwt henv T.P T.S.p T.S.ext T.K (T.d - 1) M T.hfuncs T.hP (frag_of_callsOK _ _ _ hcalls (wt_arrsOK hwt)) hK hmem
-    hroom' htop rest tr env0 hargs n (fun T' _ hd' => hall T' (Or.inr (by omega))) hex
+  exact sim_func T.S.cs sid g ρ ws v hwt henv T.P T.S.p T.S.ext T.K (T.d - 1) M T.hfuncs T.hP (frag_of_callsOK _ _ _ hcalls (wt_arrsOK hwt) (wt_ptrsOK hwt)) hK hmem
+    hroom' htop rest tr env0 hargs hwin n (fun T' _ hd' => hall T' (Or.inr (by omega))) hex
 
 /-- Every execution of a statement is simulated. -/
 theorem sim_all : ∀ fuel, AllStmt fuel := by
@@ -64,7 +70,7 @@ theorem sim_all : ∀ fuel, AllStmt fuel := by
       | none => exact sim_decl_none T n i t hex hp inv
       | some e => exact sim_decl_init T n hc i t e hfr hex hwt hp hext hits inv
     | assign i t e => exact sim_assign T n hc i t e hfr hex hwt hp hext hits inv
-    | incdec i t inc => exact sim_incdec T n i t inc hex hwt hp hext hits inv
+    | incdec i t inc => exact sim_incdec T n i t inc (by simpa [frag] using hfr) hex hwt hp hext hits inv
     | expr e => exact sim_exprstmt T n hc e hfr hex hwt hp hext hits inv
     | ret e => exact sim_ret T n hc e hfr hex hwt hp hext hits inv
     | seq a b => exact sim_seq T n ih a b hex hfr hwt hp hext hits hlp inv
@@ -87,6 +93,13 @@ theorem sim_all : ∀ fuel, AllStmt fuel := by
         cases hex
       · exact sim_call T n (funcSim_of_all T n (by omega) hd (ihs n (Nat.lt_succ_self n))) (by omega)
           dst rt fn args hex hfr hwt hp hext hits inv
+    | pload d dt k t w c0 x => exact sim_pload T n d dt k t w c0 x hex hfr hwt hp hext hits inv
+    | callp dst rt fn pargs args =>
+      rcases hT with hP | hd
+      · simp only [exec, hP, lookup, List.find?_nil] at hex
+        cases hex
+      · exact sim_callp T n (funcSim_of_all T n (by omega) hd (ihs n (Nat.lt_succ_self n))) (by omega)
+          dst rt fn pargs args hex hfr hwt hp hext hits inv
 
 theorem sim_stmt (T : Stat) (fuel : Nat) (hT : T.P = [] ∨ fuel ≤ T.d) : SimStmt T fuel := sim_all fuel T hT
 
